@@ -69,6 +69,59 @@ def opRun (a : Json) : Json :=
                 ("results", Json.arr r.2.toArray),
                 ("loads", Json.arr (r.1.loads.map fun l => Json.arr #[Json.str l.1, jstr l.2]).toArray)]
 
-def ops : List (String × (Json → Json)) := [("cd_run", opRun)]
+/-! ### remote locations: `cd_url_run` -/
+
+def fetchOf (j : Json) : Fetch :=
+  match j.getObjVal? "ok" with
+  | .ok (.str r) => .ok r.toList
+  | _ =>
+    match j.getObjVal? "err" with
+    | .ok (.str "URLError") => .urlError
+    | .ok (.str c) => .other (errOfName c)
+    | _ => .urlError
+
+def answersOf (j : Json) : List (Str × List Fetch) :=
+  match j with
+  | .arr a => a.toList.filterMap fun e => match e with
+    | .arr kv => (match kv.toList with
+      | [.str u, .arr rs] => some (u.toList, rs.toList.map fetchOf)
+      | _ => none)
+    | _ => none
+  | _ => []
+
+def parsesOf (j : Json) : List ((Kind × Str) × Except Err Str) :=
+  match j with
+  | .arr a => a.toList.filterMap fun e => match e with
+    | .arr kv => (match kv.toList with
+      | [.str k, .str r, out] =>
+        some ((k, r.toList), match out.getObjVal? "err" with
+          | .ok (.str c) => .error (errOfName c)
+          | _ => .ok (getStrD out "ok"))
+      | _ => none)
+    | _ => none
+  | _ => []
+
+def jlog (l : FLog) : Json := Json.arr (l.map fun r => Json.arr #[jstr r.url, Json.bool r.closed]).toArray
+
+def runAccessesU (w : World) (n : Net) : UState → List String → List Json → UState × List Json
+  | s, [], acc => (s, acc.reverse)
+  | s, k :: ks, acc =>
+    let r := accessU w n s k
+    runAccessesU w n r.1 ks (jresult r.2 :: acc)
+
+def opUrlRun (a : Json) : Json :=
+  let w := World.ofTree (nodesOf (get a "nodes")) (ordersOf (get a "orders")) (loadsOf (get a "loads"))
+  let n := Net.ofTable (answersOf (get a "answers")) (parsesOf (get a "parses"))
+  let kinds : List String := (getArr a "accesses").filterMap fun x => match x with | .str s => some s | _ => none
+  match resolveU w n (getStrD a "compose_path") with
+  | (l, .error e) => Json.mkObj [("compose_path", errJson e), ("fetches", jlog l)]
+  | (l, .ok cp) =>
+    let r := runAccessesU w n { composePath := cp, fetches := l } kinds []
+    Json.mkObj [("compose_path", jok (jstr cp)),
+                ("results", Json.arr r.2.toArray),
+                ("loads", Json.arr (r.1.loads.map fun l => Json.arr #[Json.str l.1, jstr l.2]).toArray),
+                ("fetches", jlog r.1.fetches)]
+
+def ops : List (String × (Json → Json)) := [("cd_run", opRun), ("cd_url_run", opUrlRun)]
 
 end PM.Driver.OpsComposeDir
